@@ -272,7 +272,7 @@ class Histories(Driver):
 
     def run(self, case):
         if case.get("ids") == "bytes":
-            return Runner(case["parents"], case["weights"], mkid=byte_id).run(case["events"])
+            return Runner(case["parents"], case["weights"], mkid=byte_id_f(case.get("salt", 0))).run(case["events"])
         return Runner(case["parents"], case["weights"]).run(case["events"])
 
     def nontrivial(self, cls):
@@ -282,9 +282,13 @@ class Histories(Driver):
         return refchain.selfcheck()
 
 
-def byte_id(l):
+def byte_id(l, salt=0):
     import hashlib
-    return hashlib.sha256(b"hdr%d" % l).digest()
+    return hashlib.sha256(b"hdr%d" % l if not salt else b"hdr%d|%d" % (l, salt)).digest()
+
+
+def byte_id_f(salt):
+    return lambda l: byte_id(l, salt)
 
 
 class ByteIds(Histories):
@@ -300,10 +304,12 @@ class ByteIds(Histories):
 
     def execute(self, unit):
         n, nm, walph, nl, nr = self.plan[unit["plan"]][:5]
-        r = Runner(unit["parents"], unit["weights"], mkid=byte_id)
-        for batches in batchings(n):
-            for events in with_deviations(batches, n, nl, nr):
-                yield dict(parents=unit["parents"], weights=unit["weights"], events=events, ids="bytes"), r.run(events)
+        # different salts give different byte ids, hence different set iteration orders inside ChainFinder
+        for salt in ((0, 1) if self.tier == "quick" else (0, 1, 2, 3)):
+            r = Runner(unit["parents"], unit["weights"], mkid=byte_id_f(salt))
+            for batches in batchings(n):
+                for events in with_deviations(batches, n, nl, nr):
+                    yield dict(parents=unit["parents"], weights=unit["weights"], events=events, ids="bytes", salt=salt), r.run(events)
 
 
 DRIVERS = [Histories, ByteIds]
